@@ -2,6 +2,9 @@ package main
 
 import (
 	"fmt"
+	"strconv"
+	"strings"
+	"unicode/utf8"
 
 	monogfx "github.com/SKAARHOJ/rawpanel-lib/ibeam_lib_monogfx"
 )
@@ -15,12 +18,7 @@ func init() {
 	registerFamily("c20", genC20)
 }
 
-func renderCase(W, H, font int, prop bool, sp, h, v, cx, cy int, bs []byte) (*monogfx.MonoImg, string) {
-	rs := make([]rune, len(bs))
-	for i, b := range bs {
-		rs[i] = rune(b)
-	}
-	str := string(rs)
+func renderCase(W, H, font int, prop bool, sp, h, v, cx, cy int, str string) *monogfx.MonoImg {
 	img := &monogfx.MonoImg{}
 	img.NewImage(W, H)
 	img.SetFont(font, prop)
@@ -30,10 +28,35 @@ func renderCase(W, H, font int, prop bool, sp, h, v, cx, cy int, bs []byte) (*mo
 	img.SetTextColor(true)
 	img.SetCursor(cx, cy)
 	img.RenderText(str)
-	return img, str
+	return img
 }
 
-// text.case font prop spacing h v cx cy dx dy W H str | sw lh A B C
+// the segments RenderText puts on separate lines: cut at every rune whose byte(rune) is 10 (language runtime: `range`)
+func lfSegments(str string) []string {
+	segs := []string{}
+	start := 0
+	for i, r := range str {
+		if byte(r) == 10 {
+			segs = append(segs, str[start:i])
+			start = i + utf8.RuneLen(r) // a rune with low byte 0x0A is never RuneError: RuneLen is its encoded length
+		}
+	}
+	return append(segs, str[start:])
+}
+
+func intsTok(xs []int) string {
+	if len(xs) == 0 {
+		return "-"
+	}
+	o := make([]string, len(xs))
+	for i, x := range xs {
+		o[i] = strconv.Itoa(x)
+	}
+	return strings.Join(o, ",")
+}
+
+// text.case font prop spacing h v cx cy dx dy W H str | sw lh lh1 segw segw1 A B C
+// str = the bytes of the Go string handed to RenderText / StrWidth (arbitrary bytes, valid UTF-8 or not)
 func (e *textExec) Exec(cmd string, a []string) string {
 	res := ""
 	p := guarded(func() {
@@ -42,11 +65,17 @@ func (e *textExec) Exec(cmd string, a []string) string {
 		}
 		font, prop, sp, h, v := atoi(a[0]), abool(a[1]), atoi(a[2]), atoi(a[3]), atoi(a[4])
 		cx, cy, dx, dy, W, H := atoi(a[5]), atoi(a[6]), atoi(a[7]), atoi(a[8]), atoi(a[9]), atoi(a[10])
-		bs := unhx(a[11])
-		A, str := renderCase(W, H, font, prop, sp, h, v, cx, cy, bs)
-		B, _ := renderCase(W, H, font, prop, sp, h, v, cx+dx, cy+dy, bs)
-		C, _ := renderCase(W, H, font, prop, sp, 1, 1, cx, cy, bs)
-		res = fmt.Sprintf("%d %d %s %s %s", A.StrWidth(str), A.LineHeight(), hx(A.GetImgSlice()), hx(B.GetImgSlice()), hx(C.GetImgSlice()))
+		str := string(unhx(a[11]))
+		A := renderCase(W, H, font, prop, sp, h, v, cx, cy, str)
+		B := renderCase(W, H, font, prop, sp, h, v, cx+dx, cy+dy, str)
+		C := renderCase(W, H, font, prop, sp, 1, 1, cx, cy, str)
+		segw, segw1 := []int{}, []int{}
+		for _, seg := range lfSegments(str) {
+			segw = append(segw, A.StrWidth(seg))
+			segw1 = append(segw1, C.StrWidth(seg))
+		}
+		res = fmt.Sprintf("%d %d %d %s %s %s %s %s", A.StrWidth(str), A.LineHeight(), C.LineHeight(), intsTok(segw), intsTok(segw1),
+			hx(A.GetImgSlice()), hx(B.GetImgSlice()), hx(C.GetImgSlice()))
 	})
 	if p != "" {
 		return p
@@ -54,31 +83,52 @@ func (e *textExec) Exec(cmd string, a []string) string {
 	return res
 }
 
+// one character of a test string, as the bytes of the Go string
+func c20Char(r *Rng) []byte {
+	switch r.Intn(24) {
+	case 0:
+		return []byte{byte(r.Intn(32))} // control incl. LF (10) and CR (13)
+	case 1:
+		return []byte(string(rune(r.Range(128, 255)))) // Latin-1 rune: two bytes of UTF-8, byte(rune) >= 0x80
+	case 2:
+		return []byte{' '}
+	case 3:
+		return []byte{127}
+	case 4:
+		return []byte{13}
+	case 5:
+		return []byte{10}
+	case 6: // rune >= U+0100: byte(rune) keeps the low 8 bits (U+010A is a line feed, U+0141 an 'A')
+		lo := r.Pick(10, 13, 32, 65, 97, 126, 127, 128, 255, r.Intn(256))
+		hi := r.Pick(1, 2, 0x20, 0xD7, 0xE0, 0xFF, 0x100, 0x10FF)
+		return []byte(string(rune(hi<<8 | lo)))
+	case 7: // a byte that is not valid UTF-8 on its own: RuneError, byte 0xFD
+		return []byte{byte(r.Pick(0x80, 0xBF, 0xC0, 0xC1, 0xF5, 0xFF, r.Range(128, 255)))}
+	case 8: // truncated / broken multi-byte sequences, overlong forms, surrogates
+		return [][]byte{{0xC3}, {0xE2, 0x82}, {0xF0, 0x9F, 0x98}, {0xE0, 0x80, 0x8A}, {0xC0, 0x8A}, {0xED, 0xA0, 0x80},
+			{0xF4, 0x90, 0x80, 0x80}, {0xE2, 0x28, 0xA1}, {0xF0, 0x28, 0x8C, 0xBC}}[r.Intn(9)]
+	default:
+		return []byte{byte(r.Range(33, 126))}
+	}
+}
+
 func c20String(r *Rng, n int) []byte {
 	b := make([]byte, 0, n)
 	for i := 0; i < n; i++ {
-		switch r.Intn(16) {
-		case 0:
-			b = append(b, byte(r.Intn(32))) // control incl. LF (10) and CR (13)
-		case 1:
-			b = append(b, byte(r.Range(128, 255)))
-		case 2:
-			b = append(b, ' ')
-		case 3:
-			b = append(b, 127)
-		case 4:
-			b = append(b, 13)
-		default:
-			b = append(b, byte(r.Range(33, 126)))
-		}
+		b = append(b, c20Char(r)...)
 	}
 	return b
 }
 
+// number of lines RenderText will use
+func lineCount(bs []byte) int {
+	return len(lfSegments(string(bs)))
+}
+
 func emitTextCase(r *Rng, font int, prop bool, sp, h, v int, bs []byte) {
 	// canvas large enough not to clip: width of the widest possible rendering + cursor + offsets
-	maxAdv := 8*maxInt(h, 1) + sp
-	need := len(bs)*maxAdv + 8*maxInt(h, 1) + 8
+	maxAdv := 9*maxInt(h, 1) + sp
+	need := len(bs)*maxAdv + 9*maxInt(h, 1) + 8
 	cx, cy := r.Range(0, 9), r.Range(0, 5)
 	dx, dy := r.Range(-cx, 11), r.Range(-cy, 6)
 	W := ((cx + maxInt(dx, 0) + need + 7) / 8) * 8
@@ -86,8 +136,44 @@ func emitTextCase(r *Rng, font int, prop bool, sp, h, v int, bs []byte) {
 	if v == 0 {
 		veff = maxInt(h, 1) // SetTextSize: v == 0 means "same as h"
 	}
-	H := cy + maxInt(dy, 0) + 8*maxInt(veff, 1) + 10
+	H := cy + maxInt(dy, 0) + 8*maxInt(veff, 1)*lineCount(bs) + 10
+	if r.Chance(35) && h >= 1 {
+		// the smallest canvas that does not clip: the line boxes of both renderings fit exactly (sized with the metrics the
+		// library reports; the whole-glyph clip tests of DrawChar are sharpest here)
+		m := &monogfx.MonoImg{}
+		m.NewImage(8, 8)
+		m.SetFont(font, prop)
+		m.SetTextSize(h, v)
+		m.SetCharSpacingCompensation(byte(sp))
+		segs := lfSegments(string(bs))
+		W = 1
+		for i, seg := range segs {
+			x0 := 0
+			if i == 0 {
+				x0 = cx + maxInt(dx, 0)
+			}
+			W = maxInt(W, x0+m.StrWidth(seg)+maxInt(h, 1))
+		}
+		H = cy + maxInt(dy, 0) + len(segs)*int(m.LineHeight())
+		if r.Chance(50) {
+			W = ((W + 7) / 8) * 8
+		}
+	}
 	emit("text.case", font, prop, sp, h, v, cx, cy, dx, dy, W, H, bs)
+}
+
+// cursor left of / above the canvas, or a canvas too small for the text: the ink is clipped; the box clause and the
+// model comparison still apply (translation / scale are claimed for unclipped renderings only)
+func emitClippedCase(r *Rng, font int, prop bool, sp, h, v int, bs []byte) {
+	cx, cy := r.Range(-30, 12), r.Range(-20, 8)
+	if r.Chance(10) {
+		cx = r.Pick(-2147483647, 2147483647, -1000000, 1000000)
+	}
+	if r.Chance(10) {
+		cy = r.Pick(-2147483647, 2147483647, -1000000, 1000000)
+	}
+	dx, dy := r.Range(-12, 12), r.Range(-8, 8)
+	emit("text.case", font, prop, sp, h, v, cx, cy, dx, dy, r.Range(0, 80), r.Range(0, 40), bs)
 }
 
 func maxInt(a, b int) int {
@@ -110,10 +196,22 @@ func genC20(r *Rng, n int, tier string) {
 					continue
 				}
 				for _, sz := range sizes {
-					emitTextCase(r, font, prop, r.Intn(4), sz[0], sz[1], []byte{byte(ch)})
+					emitTextCase(r, font, prop, r.Intn(4), sz[0], sz[1], []byte(string(rune(ch))))
 				}
 			}
 		}
+	}
+	// runes >= U+0100 (RenderText keeps byte(rune)), malformed UTF-8 (RuneError -> byte 0xFD), as single "glyphs"
+	for _, rn := range []rune{0x100, 0x10A, 0x10D, 0x120, 0x141, 0x17F, 0x1FF, 0x20AC, 0x2A0A, 0xD7FF, 0xE000, 0xFFFD, 0xFFFF, 0x10000, 0x1F60A, 0x10FFFF} {
+		emitTextCase(r, r.Intn(3), r.Bool(), r.Intn(4), r.Range(1, 3), r.Range(1, 3), []byte(string(rn)))
+	}
+	for b := 0x80; b <= 0xFF; b += r.Range(1, 5) {
+		emitTextCase(r, r.Intn(3), r.Bool(), r.Intn(4), r.Range(1, 2), r.Range(1, 2), []byte{byte(b)})
+		emitTextCase(r, r.Intn(3), r.Bool(), r.Intn(4), 1, 1, []byte{byte(b), 'A', byte(r.Range(0x80, 0xBF)), 'z'})
+	}
+	// clipped renderings: negative / huge cursors, canvases smaller than the text
+	for i := 0; i < n/4; i++ {
+		emitClippedCase(r, r.Pick(0, 1, 2), r.Bool(), r.Intn(4), r.Range(1, 3), r.Range(1, 3), c20String(r, r.Range(0, 6)))
 	}
 	// random strings
 	for i := 0; i < n; i++ {
